@@ -62,12 +62,6 @@ void h_fn_invert(void){ LOCALS; u64 nd = 2;
   int r = k_fn_invert(shape, data, p, OUTS, same); agree(r, 4, ex, nd, rc, dims, shapes, vals);
   ASSERT(vals[0] == ~data[idx[0]*n1 + idx[1]], "invert element");
   ASSERT(same[0] == 1, "extracted operand is the address of the leaf array"); REACHED(); }
-void h_fn_sum(void){ LOCALS; u64 nd = 1; i32 ax = in_i32(-2, 1); p[0] = (u32)ax; u64 an = norm(ax, 2);
-  ex[0] = an == 0 ? n1 : n0; in_index(idx, ex, nd, MAXE - 1);
-  int r = k_fn_sum(shape, data, p, OUTS, same); agree(r, 4, ex, nd, rc, dims, shapes, vals);
-  u32 acc = 0; for (u64 k = 0; k < MAXE; k++) if (k < shape[an]) acc += an == 0 ? data[k*n1 + idx[0]] : data[idx[0]*n1 + k];
-  ASSERT(vals[0] == acc, "NumPy sum over axis");
-  ASSERT(same[0] == 1, "extracted operand is the address of the leaf array"); REACHED(); }
 #ifndef VAR
 #define VAR 1
 #endif
@@ -81,3 +75,48 @@ void h_fn_sum(void){ LOCALS; u64 nd = 1; i32 ax = in_i32(-2, 1); p[0] = (u32)ax;
   ASSERT(same[0] == 1 && same[1] == 1, "extracted operands are the addresses of the leaves, in order"); REACHED(); }
 BIN(add, +)
 BIN(subtract, -)
+/* reduction: VAR 1 fn::sum[axis](a), 2 fn::reduce_add[axis](a), 3 extracted composition(a), 4 fn::apply(composition, extracted operands) */
+void h_fn_sum(void){ LOCALS; u64 nd = 1; i32 ax = in_i32(-2, 1); p[0] = (u32)ax; u64 an = norm(ax, 2);
+  ex[0] = an == 0 ? n1 : n0; in_index(idx, ex, nd, MAXE - 1);
+  int r = CAT3(k_fn_, sum, VAR)(shape, data, p, OUTS, same); agree(r, 2, ex, nd, rc, dims, shapes, vals);
+  u32 acc = 0; for (u64 k = 0; k < MAXE; k++) if (k < shape[an]) acc += an == 0 ? data[k*n1 + idx[0]] : data[idx[0]*n1 + k];
+  ASSERT(vals[0] == acc, "NumPy sum over axis");
+  ASSERT(same[0] == 1, "extracted operand is the address of the leaf array"); REACHED(); }
+/* (f*g)(a) == f(g(a)) == flip(transpose(a)) == extracted composition; f = flip[axis], g = transpose[axes] */
+static void ref_flip_transpose(const u32* p, i32 ax, const u64* shape, const u64* idx, u64* src){
+  u64 e0 = shape[p[0]], e1 = shape[p[1]], i = idx[0], j = idx[1];
+  if (norm(ax, 2) == 0) i = e0 - 1 - i; else j = e1 - 1 - j;
+  src[p[0]] = i; src[p[1]] = j; }
+void h_comp2(void){ LOCALS; u64 nd = 2, src[2]; in_perm2(p); i32 ax = in_i32(-2, 1); p[2] = (u32)ax;
+  ex[0] = shape[p[0]]; ex[1] = shape[p[1]]; in_index(idx, ex, nd, MAXE - 1);
+  int r = k_comp2(shape, data, p, OUTS, same); agree(r, 5, ex, nd, rc, dims, shapes, vals);
+  ref_flip_transpose(p, ax, shape, idx, src);
+  ASSERT(vals[0] == data[src[0]*n1 + src[1]], "NumPy flip(transpose(a)) element");
+  ASSERT(same[0] == 1, "extracted operand is the address of the leaf array"); REACHED(); }
+/* f*(g*h) == (f*g)*h == f*g*h == f(g(h(a))) == invert(flip(transpose(a))) */
+void h_comp3(void){ LOCALS; u64 nd = 2, src[2]; in_perm2(p); i32 ax = in_i32(-2, 1); p[2] = (u32)ax;
+  ex[0] = shape[p[0]]; ex[1] = shape[p[1]]; in_index(idx, ex, nd, MAXE - 1);
+  int r = k_comp3(shape, data, p, OUTS, same); agree(r, 6, ex, nd, rc, dims, shapes, vals);
+  ref_flip_transpose(p, ax, shape, idx, src);
+  ASSERT(vals[0] == ~data[src[0]*n1 + src[1]], "NumPy invert(flip(transpose(a))) element");
+  ASSERT(same[0] == 1, "extracted operand is the address of the leaf array"); REACHED(); }
+void h_comp_sum(void){ LOCALS; u64 nd = 1; i32 ax = in_i32(-2, 1); p[0] = (u32)ax; u64 an = norm(ax, 2);
+  ex[0] = an == 0 ? n1 : n0; in_index(idx, ex, nd, MAXE - 1);
+  int r = k_comp_sum(shape, data, p, OUTS, same); agree(r, 2, ex, nd, rc, dims, shapes, vals);
+  u32 acc = 0; for (u64 k = 0; k < MAXE; k++) if (k < shape[an]) acc += ~(an == 0 ? data[k*n1 + idx[0]] : data[idx[0]*n1 + k]);
+  ASSERT(vals[0] == acc, "NumPy sum(invert(a), axis)");
+  ASSERT(same[0] == 1, "extracted operand is the address of the leaf array"); REACHED(); }
+/* binary functor inside a composition */
+#define COMPB(NAME, REF) void h_compb_##NAME(void){ LOCALS; u32 db[CELLS]; in_data(db, MAXE*MAXE); u64 nd = 2; \
+  ex[0] = n0; ex[1] = n1; in_index(idx, ex, nd, MAXE - 1); \
+  int r = k_compb_##NAME(shape, data, db, OUTS, same); agree(r, 2, ex, nd, rc, dims, shapes, vals); \
+  u64 g = idx[0]*n1 + idx[1]; u32 x = data[g], y = db[g]; ASSERT(vals[0] == (u32)(REF), "element == " #REF); \
+  ASSERT(same[0] == 1 && same[1] == 1, "extracted operands are the addresses of the leaves, in order"); REACHED(); }
+COMPB(inner, ~(x - y))
+COMPB(inner_curry, ~(x - y))
+COMPB(outer, ~x - y)
+COMPB(extract, ~x - y)
+void h_extract_repeated(void){ u64 shape[2]; u32 da[CELLS], db[CELLS], same[4] = {0}; in_shape(shape, 2); in_data(da, MAXE*MAXE); in_data(db, MAXE*MAXE);
+  int r = k_extract_repeated(shape, da, db, same);
+  ASSERT(r == 1, "view exists"); ASSERT(same[0] == 3, "one extracted operand per leaf occurrence");
+  ASSERT(same[1] == 1 && same[2] == 1 && same[3] == 1, "operands of (a+b)-a are &a, &b, &a"); OBS(r); REACHED(); }
